@@ -12,6 +12,7 @@ type emitObl struct {
 	Props  []string
 	OK     bool
 	Detail string
+	Replay map[string]interface{} // set by checks that ran the real code themselves (bounded obligations)
 }
 
 func firstOccurrenceOrder(labels []string) string {
@@ -111,6 +112,7 @@ func (e *Engine) evalEmitOnce(runs []emitRun) []emitObl {
 	LE := Sym("in.cfg.LE", SBool)
 	type key struct{ lang, cell string }
 	sigs := map[key]map[string]map[string]bool{} // lang,cell -> dir -> set of first-occurrence orders
+	luaDecs, luaDefs := map[string]emitRun{}, map[string]emitRun{}
 	for _, r := range runs {
 		base := fmt.Sprintf("EMIT:%s:%s:%s", r.entry.Lang, r.entry.Dir, r.cell.ID)
 		cprops := []string{"C07"}
@@ -131,6 +133,12 @@ func (e *Engine) evalEmitOnce(runs []emitRun) []emitObl {
 				cprops = append(cprops, "C04")
 			}
 		}
+		if r.entry.Lang == "lua" {
+			cprops = append(cprops, "C15")
+			if r.entry.Dir != "dec" {
+				cprops = []string{"C15"}
+			}
+		}
 		if r.err != "" {
 			add(base+":run", cprops, false, "emitter could not be executed symbolically: "+r.err)
 			continue
@@ -138,6 +146,18 @@ func (e *Engine) evalEmitOnce(runs []emitRun) []emitObl {
 		if len(r.paths) == 0 {
 			add(base+":run", cprops, false, "no path of the emitter returns a text")
 			continue
+		}
+		if r.entry.Lang == "lua" {
+			for _, o := range luaCellObligations(base, r) {
+				obls = append(obls, o)
+			}
+			if r.entry.Dir != "dec" {
+				if r.entry.Dir == "fielddef" {
+					luaDefs[r.cell.ID] = r
+				}
+				continue
+			}
+			luaDecs[r.cell.ID] = r
 		}
 		// name / marker
 		nameOK, markerOK := true, true
@@ -391,6 +411,7 @@ func (e *Engine) evalEmitOnce(runs []emitRun) []emitObl {
 			add(base+":backpatch-target", []string{"C04"}, okT, "no line of the emitted text relates the length field to the target field: the length is not measured over the target's own encoding")
 		}
 	}
+	obls = append(obls, luaDefinesObligations(luaDecs, luaDefs)...)
 	// cross-cell predicates
 	byID := map[string]*emitRun{}
 	for i := range runs {
@@ -512,6 +533,16 @@ func cmdEmit(args []string) {
 			if len(args) > 1 {
 				fmt.Printf("== %s %s %s err=%q paths=%d\n", en.Lang, en.Dir, c.ID, r.err, len(r.paths))
 				for _, p := range r.paths {
+					if args[1] == "flat" {
+						var pcs []string
+						for _, c := range p.pc {
+							if len(symsOf(c)) > 0 {
+								pcs = append(pcs, truncate(c.String(), 120))
+							}
+						}
+						fmt.Printf("   PC %s\n   FLAT\n%s\n", strings.Join(pcs, " && "), flatText(p.text))
+						continue
+					}
 					fmt.Printf("   TEXT %s\n", truncate(p.text.String(), 1500))
 				}
 			}
